@@ -1,5 +1,5 @@
 PLAN = dict(
-    id="C06", pkg="c06", level="exploration",
+    id="C06", pkg="c06", level="exploration", cli=True,
     rule=("signatures: a generated bundle (b1/b2, 1..6 exchanges on hosts covered by different fixture certificates, plus uncovered and relative URLs) processed by a "
           "history of 1..3 signers the way sign-bundle drives the library (AddPayloadIntegrity on first coverage, AddExchange, UpdateSignatures; P-256/P-384 "
           "fixtures, chains of 1-2 certificates, MI record sizes 1..16384, date offsets, durations up to exactly 7 days); the untampered invariant is checked after "
@@ -8,7 +8,9 @@ PLAN = dict(
           "flip in a signed subset or in a signature, authority index changed, authorities swapped). Oracle: untampered => NewVerifier ok inside the window, covered "
           "exchanges yield the original body with the first covering signer's leaf as authority, uncovered ones (nil,nil); any success implies status/normalised "
           "headers/decoded payload == signed originals, t inside every signer's window, lifetime <= 7 days. Non-trivial: >= 2 signers, a tamper that changed "
-          "something, an instant outside the window or an over-long lifetime."),
+          "something, an instant outside the window or an over-long lifetime. sign-sections (the command-line entry point, sub-check shared with C20): gen-bundle + gen-certurl + "
+          "sign-bundle signatures-section with keys in SEC1 / PKCS#8 / encrypted PKCS#8 form, -date / -expire (flags omitted, numeric zone offsets, exactly 168h) and -miRecordSize 1..16384; the "
+          "signed bundle must verify NOW with signature.NewVerifier for every covered exchange, leave uncovered ones unsigned, and be refused outside the window."),
     assumptions=TRUSTED + ["collision resistance of SHA-256 and unforgeability of ECDSA", "an exchange covered by several signers gets its payload integrity from the first one (the second reuses the existing Digest)"],
     technique="rapid-generated signing histories and tampers; metamorphic oracle 'verified implies unchanged signed content, right authority, inside the window'; two-sided untampered invariant after every step",
     level_text=("History-based exploration: signer sequences, write/read and tampers are generated together; the invariant is evaluated after every signer, which is what "
@@ -16,7 +18,9 @@ PLAN = dict(
     level_note=NOTE_BASE,
     runs=[
         dict(name="sig", run="^(TestPropSignatures|TestCorpus)$", checks=(700, 75000), shards=(2, 16), timeout=(300, 3600)),
+        # the command-line entry point of the same signer (sign-bundle signatures-section), which is anchored in this property too; the sub-check lives in the CLI package c20
+        dict(name="cli", pkg="c20", run="^(TestPropSignSections|TestFixedSignSections)$", checks=(25, 750), shards=(1, 16), timeout=(300, 3600)),
     ],
-    require=[("signatures", "signers-2"), ("signatures", "signers-3"), ("signatures", "via-file"), ("signatures", "verified"), ("signatures", "rejected-newverifier"),
+    require=[("sign-sections", "covered"), ("sign-sections", "date-numeric-zone"), ("signatures", "signers-2"), ("signatures", "signers-3"), ("signatures", "via-file"), ("signatures", "verified"), ("signatures", "rejected-newverifier"),
              ("signatures", "rejected-exchange"), ("signatures", "has-uncovered"), ("signatures", "tamper:authority"), ("signatures", "tamper:auth-samekey-cert"), ("signatures", "time:end+1")],
 )
